@@ -89,6 +89,7 @@ DEV_LIMIT = 0.2
 F_GLOBAL_IGNORED = 'C10/tile/global-limit-ignored-when-layer-limited'
 F_ISLAND = 'C10/mask/island-in-hole-masked'
 F_LAYER_SRS = 'C10/tile/limits-intersected-in-layer-srs'
+F_SLIVER = 'C10/mask/subpixel-thin-part-drawn-displaced'
 
 _V = (20, 120, 235)
 PALETTE = [c for c in itertools.product(_V, _V, _V)]
@@ -587,6 +588,18 @@ class Region(object):
                 outs = ~shapely.contains_xy(outer, X, Y)
             self._m[key] = (ins, outs)
         return self._m[key]
+
+    def thin_near(self, X, Y):
+        """pixels within 2 px of a part of the geometry that is thinner than about 1.5 px (does not survive an erosion by
+        0.75 px); None if there is no such part"""
+        shapely = _shp()
+        if 'thin' not in self._m:
+            thin = self.geom.difference(self.geom.buffer(-0.75).buffer(0.8, join_style=2, mitre_limit=3.0))
+            if thin.is_empty or thin.area < 1e-6:
+                self._m['thin'] = None
+            else:
+                self._m['thin'] = shapely.contains_xy(thin.buffer(2.0), X, Y)
+        return self._m['thin']
 
     def point_class(self, px, py, band=BAND):
         """+1 strictly inside, -1 strictly outside, 0 within the band"""
@@ -1099,6 +1112,7 @@ class Harness(object):
     def __init__(self, case, stats):
         self.case = case
         self.stats = stats
+        self.exclude_open = True   # False when a committed regression case is replayed (it must show the finding)
         self.model = Model(case['conf'])
         self.dir = None
         self.up = None
@@ -1685,6 +1699,17 @@ class Harness(object):
                 k = grid_edge_skip
                 near_edge = ((np.abs(X - gx0) <= k) | (np.abs(X - gx1) <= k) | (np.abs(Y - gy0) <= k) | (np.abs(Y - gy1) <= k))
                 expected[near_edge] = -3
+        thin_near = np.zeros((h, w), bool)
+        for r in all_regions:
+            t_ = r.thin_near(X, Y)
+            if t_ is not None:
+                thin_near |= t_
+        if thin_near.any():
+            classes.append('geom-has-subpixel-thin-part')
+            if F_SLIVER in open_sigs() and self.exclude_open:
+                # open finding: MapProxy draws parts thinner than ~1.5 px displaced by up to 1.25 px; not judged there
+                self.stats.excluded['open-finding: pixels within 2 px of a sub-pixel-thin part of a limit geometry'] += 1
+                expected[thin_near] = -3
         judged = expected != -3
         blank_obs = (obs == BLANK) | (obs == m.bg_idx)
         if grid_px is not None:
@@ -1717,6 +1742,10 @@ class Harness(object):
             u = colour_owner[int(obs[py, px])]
             sig = svc + '/outside-limit-visible'
             extra = ''
+            if thin_near.any() and not (leak & ~thin_near).any():
+                sig = F_SLIVER[4:]
+                extra = (' [all such pixels lie within 2 px of a part of the geometry that is thinner than 1.5 px: the mask '
+                         'draws it displaced]')
             if both and layer_region is not None:
                 li, lo = layer_region['region'].masks(X, Y, band, band_in)
                 if not (leak & lo).any():
@@ -1743,9 +1772,10 @@ class Harness(object):
 
 # ------------------------------------------------------------------------------------------------
 
-def evaluate(case, stats, first_only=True):
+def evaluate(case, stats, first_only=True, exclude_open=True):
     out = []
     with Harness(case, stats) as hs:
+        hs.exclude_open = exclude_open
         for req in case['requests']:
             v = hs.run_request(req)
             if v is not None:
@@ -1781,4 +1811,4 @@ def run(tier, seed, stats):
 
 def replay(case, stats):
     _quiet()
-    return evaluate(case, stats, first_only=False)
+    return evaluate(case, stats, first_only=False, exclude_open=False)
